@@ -89,7 +89,7 @@ pub fn gen(rng: &mut Rng, _k: usize, _tier: &str) -> J {
 
 fn shape(sql: &str) -> String {
     let mut v = vec![];
-    for (kw, n) in [(" / ", "div"), ("exp(", "exp"), ("ln(", "ln"), ("log", "log"), ("sqrt(", "sqrt"), ("pow(", "pow"), ("abs(", "abs"), ("CAST(", "cast"), (" * ", "mul"), ("var(", "var"), ("stddev(", "std"), ("avg(", "avg"), ("sum(", "sum"), ("JOIN", "join"), ("GROUP BY", "group"), ("OFFSET", "offset")] { if sql.contains(kw) { v.push(n); } }
+    for (kw, n) in [(" / ", "div"), ("exp(", "exp"), ("ln(", "ln"), ("log10(", "log10"), ("log2(", "log2"), ("log(", "log"), ("sqrt(", "sqrt"), ("pow(", "pow"), ("abs(", "abs"), ("CAST(", "cast"), (" * ", "mul"), ("var(", "var"), ("stddev(", "std"), ("avg(", "avg"), ("sum(", "sum"), ("JOIN", "join"), ("GROUP BY", "group"), ("OFFSET", "offset")] { if sql.contains(kw) { v.push(n); } }
     if v.is_empty() { "plain".into() } else { v[..v.len().min(3)].join("+") }
 }
 
